@@ -41,6 +41,15 @@ def is_display(e):
         return all(is_display(x) for x in e.elts)
     if isinstance(e, ast.Call) and isinstance(e.func, ast.Name) and e.func.id == "str":
         return True
+    # text built from a literal: "...".format(..), "..." % x, "..." + <text>
+    if isinstance(e, ast.Call) and isinstance(e.func, ast.Attribute) and e.func.attr in ("format", "join", "strip", "rstrip", "lstrip", "upper", "lower", "replace") \
+            and isinstance(e.func.value, ast.Constant) and isinstance(e.func.value.value, str):
+        return True
+    if isinstance(e, ast.BinOp) and isinstance(e.op, ast.Mod) and isinstance(e.left, ast.Constant) and isinstance(e.left.value, str):
+        return True
+    if isinstance(e, ast.BinOp) and isinstance(e.op, ast.Add) and any(isinstance(x, (ast.JoinedStr, ast.Constant)) and (not isinstance(x, ast.Constant) or isinstance(x.value, str)) for x in (e.left, e.right)) \
+            and all(is_display(x) for x in (e.left, e.right)):
+        return True
     if isinstance(e, ast.Name):
         return e.id in ("stack_trace",)
     return False
@@ -156,7 +165,10 @@ def run(repo: Repo, chk: Check):
                     pruned.add((n.id, i))
     chk.assume("statements inside the except handlers and the finally block of process_input do not raise (traceback formatting, logging while ENABLE_LOGGING is False)")
     live = cfg.reachable(avoid_edges=pruned)
-    reply_nodes = [n.id for n in cfg.nodes if n.id in live and n.kind == "stmt" and any(c in reply_calls for c in ast.walk(n.ast))]
+    # (the canonical form of process_input may carry an inlined copy of the helper that prints the reply)
+    def is_reply(c):
+        return c in reply_calls or isinstance(c, ast.Call) and norm(c.func) == "print" and any(k.arg == "file" and norm(k.value) == saved for k in c.keywords)
+    reply_nodes = [n.id for n in cfg.nodes if n.id in live and n.kind == "stmt" and any(is_reply(c) for c in ast.walk(n.ast))]
     direct_reply = bool(reply_nodes)
     if not reply_nodes:
         # the reply may have been moved into a helper (module-level or nested function) that process_input calls
@@ -238,7 +250,7 @@ def run(repo: Repo, chk: Check):
     chk.judge("R14.b", "mod_daemon:process_input:at most one reply per request", not twice, "a path passes two reply sites", None, where)
     # (3) the reply is unconditional or guarded only by 'response is not None' and response is definitely a value
     for r in (reply_nodes if direct_reply else []):
-        call = [c for c in ast.walk(cfg.nodes[r].ast) if c in reply_calls][0]
+        call = [c for c in ast.walk(cfg.nodes[r].ast) if is_reply(c)][0]
         arg = call.args[0] if call.args else None
         kws = {k.arg: k.value for k in call.keywords}
         okp = len(call.args) == 1 and "end" not in kws and "sep" not in kws and isinstance(kws.get("flush"), ast.Constant) and kws["flush"].value is True
@@ -374,13 +386,33 @@ def run(repo: Repo, chk: Check):
             exits.append((n, g))
     allowed = 0
     mrd = ReachingDefs(mcfg)
+    def eof_guard(t, p):
+        """the test says '<name> is empty': name (False) / not name (True) / name == "" (True) / name != "" (False) -> the Name node"""
+        if isinstance(t, ast.Name) and p is False:
+            return t
+        if isinstance(t, ast.UnaryOp) and isinstance(t.op, ast.Not) and isinstance(t.operand, ast.Name) and p is True:
+            return t.operand
+        if isinstance(t, ast.Compare) and len(t.ops) == 1 and isinstance(t.ops[0], (ast.Eq, ast.NotEq)):
+            l, r = t.left, t.comparators[0]
+            if isinstance(l, ast.Constant):
+                l, r = r, l
+            if isinstance(l, ast.Name) and isinstance(r, ast.Constant) and r.value == "" and (isinstance(t.ops[0], ast.Eq) == bool(p)):
+                return l
+        return None
+
+    def exit_guard(t, p):
+        if isinstance(t, ast.Compare) and len(t.ops) == 1 and isinstance(t.ops[0], ast.Eq) and p is True:
+            l, r = t.left, t.comparators[0]
+            return any(isinstance(x, ast.Constant) and x.value == "EXIT" for x in (l, r)) and any(isinstance(x, ast.Name) for x in (l, r))
+        return False
+
     for n, g in exits:
-        ok = ("line", False) in g or ("line == 'EXIT'", True) in g or ("not line", True) in g
+        ok = any(isinstance(t, ast.expr) and (eof_guard(t, p) is not None or exit_guard(t, p)) for t, p in mcfg.guards(n.id))
         allowed += ok
         # the end-of-input test must look at the raw readline() result: a stripped blank line is not end of input
         for t, p in mcfg.guards(n.id):
-            if isinstance(t, ast.Name) and p is False or isinstance(t, ast.UnaryOp) and isinstance(t.op, ast.Not) and isinstance(t.operand, ast.Name) and p is True:
-                nm = t if isinstance(t, ast.Name) else t.operand
+            nm = eof_guard(t, p) if isinstance(t, ast.expr) else None
+            if nm is not None:
                 tids = [x.id for x in mcfg.nodes_of(nm)]
                 ds = mrd.at(tids[0], nm.id) if tids else []
                 raw = bool(ds) and all(d.kind == "assign" and d.value is not None and norm(d.value).endswith(".readline()") for d in ds)
